@@ -9,7 +9,7 @@ def vm(profile, qn, tn, extra=None):
     return {"kind": "vm", "profile": profile, "extra": extra or [],
             "quick": {"n": qn, "shards": 16}, "thorough": {"n": tn, "shards": 16}}
 
-VM_ENGINES = [vm("ops", 16000, 320000), vm("structured", 16000, 320000), vm("raw", 16000, 320000), vm("calls", 16000, 320000)]
+VM_ENGINES = [vm("ops", 16000, 320000), vm("structured", 16000, 320000), vm("raw", 16000, 320000), vm("calls", 16000, 320000), vm("create", 1600, 16000)]
 VM_ASSUME = ["outside the Lean interpreter model (cases reaching them are skipped by the comparison, monitors still run): CREATE/CREATE2, native/precompile addresses (<= 0xff), any use of an address destroyed earlier in the same transaction, call nesting deeper than 8",
              "DataStackMaxDepth = 0 and the 16 MiB memory provider, as x/cvm/keeper configures the VM"]
 VM_TRUST = ["modelled, not verified: Go runtime (big.Int, slices, allocation limits), Burrow acmstate cache/Sync, golang.org/x/crypto/sha3",
@@ -49,7 +49,7 @@ PROPS = {
     },
     "C09": {
         "lean": ["Shentu.Props.C09"],
-        "engines": [chain("staking", 128, 1280, ops=150, tops=250), chain("shield", 32, 320, ops=160)],
+        "engines": [chain("staking", 128, 1280, ops=150, tops=250), chain("shield", 128, 1280, ops=90, tops=160)],
         "trusted": ["modelled, not verified: the Cosmos SDK staking keeper (power index, unbonding queues, slashing), baseapp, Tendermint; the model is the specification of what consensus must see, compared on every block with the updates the real application returns from EndBlock",
                     "the consensus view is accumulated by the harness from the EndBlock responses, starting from the bonded validators of genesis"],
         "assumptions": ["consensus public keys are unique among validators (refused otherwise by the SDK)", "power reduction 10^6 (the default)", "a tie in power exactly at the last seat is not decided by the monitor (counted as sit.c09.tie_at_the_cut)",
@@ -87,7 +87,7 @@ PROPS = {
     },
     "C01": dict(BANKVM, lean=["Shentu.Props.C01"], engines=[chain("bankvm", 96, 960, ops=100), chain("gov", 48, 480, ops=100), chain("oracle", 48, 480)]),
     "C18": dict(BANKVM, lean=["Shentu.Props.C18", "Shentu.Props.C18vm"], drivers=["chaindriver", "vmdriver"],
-                engines=[chain("bankvm", 160, 1600, ops=100), vm("calls", 16000, 320000)]),
+                engines=[chain("bankvm", 160, 1600, ops=100), vm("calls", 16000, 320000), vm("create", 1600, 16000)]),
     "C19": dict(BANKVM, lean=["Shentu.Props.C19"], engines=[chain("bankvm", 160, 1600, ops=100)]),
     "C11": dict(GOV, lean=["Shentu.Props.C11"]),
     "C12": dict(GOV, lean=["Shentu.Props.C12"]),
